@@ -9,7 +9,7 @@ PARTIAL = {
     "C01": "Proved: the scanner, the parser and the evaluator of the model never loop and never take a panic branch on well-formed trees and reachable environments (fuel adequacy, progress, invariant over all histories; hypothesis PosToNat on the kernel for identity()). Carried by the streams alone: native stack depth, allocation failure, RefCell borrow flags, byte-index slicing; the K4 witnesses are replayed and listed as known findings.",
     "C02": "Proved: evaluation of every number expression equals an independent denotation into Mathlib's complex numbers, with exactly the stated refusals; kind table; factorial. Floating-point rounding is carried by running the same definitions at Float against the implementation (bitwise / 4 ulp) and by an independent evaluator under a magnitude-scaled bound.",
     "C03": "Proved: the parser accepts exactly the documented grammar and returns its tree (C03_exact: parse ts = ok ss <-> DerivesProgram ts ss; soundness, completeness, unambiguity, statement shapes, delimiter requirement).",
-    "C04": "Proved: scan ok <-> declarative decomposition into blank runs and lexemes with exact slices, positions, number shape and value, whole-word keyword lookup, longest match, bad-character report; shipped spelling table = documented spellings except the known finding yard/yards/yd (partial theorem + proved counterexample). f64::from_str is trusted and sampled by the fmt stream.",
+    "C04": "Proved: scan ok <-> declarative decomposition into blank runs and lexemes with exact slices, positions, number shape and value, whole-word keyword lookup, longest match, bad-character report; shipped spelling table = documented spellings except the known finding yard/yards/yd (partial theorem + proved counterexample). The number reader of the executable model (decimalToBits) is proved correctly rounded for every digit string and exponent (nearest, ties to even, subnormals, overflow threshold: C04Round); Rust's f64::from_str is compared with it bit for bit by the fmt stream.",
     "C05": "Proved: shipped factors within tolerance of the exact definitions except the 13 bit-family rows (known finding; partial theorem + proved counterexample), symbols, spellings (partial: yard), round trip, paths, cross-kind refusal, bare numbers, affine temperature.",
     "C06": "Proved in any field with a lawful kernel: sizes add, subtract, scale and divide, cancellation laws, negation, every refusal.",
     "C07": "Proved for arbitrary sizes: every matrix operation refines the Mathlib operation, cofactor determinant = Matrix.det, det multiplicative, transpose laws, inverse exists iff det != 0 and A * inverse A = 1 (adjugate), cross product laws, |v|, shapes never panic. The column-cross orientation is a known finding (stated as a proved fact about the model).",
@@ -20,7 +20,7 @@ PARTIAL = {
     "C12": "Proved: frame property of every statement, clear keeps exactly the constants, a copied function is independent of the original. The Rust-level sharing of Rc handles is watched by a harness monitor.",
     "C13": "Proved: first-match dispatch by arity and literals, binding of named parameters, define replaces in place or appends, delete removes exactly one, reachable signature lists are non-empty and pairwise inequivalent, listing order (Kernel.eq = equality is an explicit hypothesis where needed).",
     "C14": "Proved: every operator-level diagnostic carries its own token's position, evaluation order (left before right, callee before arguments, entries left to right), statement-level blame, exactly one line per failing statement and the run continues, C14_eval_blame for whole trees; parse errors carry the first unconsumed token.",
-    "C15": "Proved under an explicit, satisfiable FmtSpec on the real formatter: an independent reader inverts the complex printer on all nine forms; measurement form; distinct symbols; matrix structure; built-in marker. Rust's Display for f64 is trusted and checked by the fmt and print streams with an independent reader.",
+    "C15": "Proved under an explicit, satisfiable FmtSpec on the real formatter: an independent reader inverts the complex printer on all nine forms; measurement form; distinct symbols; matrix structure; built-in marker. The model's float printer is proved to read back to the same bits for every positive finite double, on the digits and on the text (C04Round: shortest_roundtrip, fmtBits_reads_back); Rust's Display for f64 is compared with it byte for byte by the fmt and print streams, and by an independent reader.",
     "C16": "Proved for the model of main.rs: trailing newline, shared environment, exit in any letter case, line isolation, tab size changes positions only (scanner and parser commute with position erasure), and C16_three_modes: well-formed lines given as a file, as the expression, or typed line by line produce the same outputs up to positions and the same final bindings (scanner and parser compositional over lines; evaluation commutes with position erasure). clap, rustyline and the real process are observed only through the binary (front stream: binary vs in-process prediction vs model, cross-mode comparison).",
     "C17": "Proved: inserting blanks at any token boundary preserves kinds, lexemes and values (general, discharged for the shipped Unicode table); removing a blank run is harmless whenever a decidable adjacency rule (needsSepAt) says the neighbours cannot fuse; delimiter flips and extra delimiters do not change the parse.",
     "C18": "Proved: listing shape, printer structure (in-order lexemes, nothing dropped), adjacency safety. Reading the listing back through the real scanner is the two-phase listing stream.",
